@@ -219,7 +219,8 @@ def run_multitraj(rep, tier, problems):
     T = len(TL)
     ntraj = 3
     forms = ["none", "list2", "dict"]
-    for form, (ss, sf), keep in itertools.product(forms, STORE if tier == "thorough" else STORE[:4], (False, True)):
+    by_keep = {}
+    for form, (ss, sf), keep in itertools.product(forms, STORE, (False, True)):
         keys = expected_keys(form)
         for name in ("mcsolve", "ssesolve", "smesolve", "nm_mcsolve"):
             o = {"store_states": ss, "store_final_state": sf, "keep_runs_results": keep, "progress_bar": "", "map": "serial"}
@@ -245,6 +246,7 @@ def run_multitraj(rep, tier, problems):
             rep.evaluations += 1
             rep.nontrivial.add(core.chash([name, form, ss, sf, keep]))
             rep.count("solver=" + name)
+            by_keep[(name, form, ss, sf, keep)] = res
 
             def P(sig, what):
                 problems.append((f"{sig}:{name}", f"{name} e_ops={form} store_states={ss} store_final_state={sf} keep_runs_results={keep}: {what}"))
@@ -314,6 +316,31 @@ def run_multitraj(rep, tier, problems):
                     w = res.wiener_process
                     if w is None or len(w) != ntraj or any(np.shape(x)[-1] != T for x in w):
                         P("noise-record", f"wiener_process shape {[np.shape(x) for x in (w or [])]} for {T} times")
+    compare_keep(by_keep, problems)
+
+
+def compare_keep(by_keep, problems):
+    """the same seeded ensemble with and without keep_runs_results must report the same averages / final state"""
+    for (name, form, ss, sf, keep), a in by_keep.items():
+        if keep:
+            continue
+        b = by_keep.get((name, form, ss, sf, True))
+        if b is None:
+            continue
+        tag = f"{name} e_ops={form} store_states={ss} store_final_state={sf}"
+        for k, (x, y) in enumerate(zip(a.average_expect, b.average_expect)):
+            if np.abs(np.asarray(x) - np.asarray(y)).max() > 1e-9:
+                problems.append((f"keep-runs-changes-average:{name}", f"{tag}: average_expect[{k}] differs between keep_runs_results True/False"))
+        fa, fb = a.average_final_state, b.average_final_state
+        if (fa is None) != (fb is None):
+            problems.append((f"keep-runs-changes-final:{name}", f"{tag}: average_final_state available only for one value of keep_runs_results"))
+        elif fa is not None and (fa - fb).norm() > 1e-9:
+            problems.append((f"keep-runs-changes-final:{name}", f"{tag}: average_final_state differs by {(fa - fb).norm():.2e} between keep_runs_results True/False"))
+        sa, sb = a.average_states, b.average_states
+        if sa is not None and sb is not None and len(sa) == len(sb) and len(sa) > 0:
+            d = max((x - y).norm() for x, y in zip(sa, sb))
+            if d > 1e-9:
+                problems.append((f"keep-runs-changes-states:{name}", f"{tag}: average_states differ by {d:.2e} between keep_runs_results True/False"))
 
 
 def run(tier, seed, replay):
